@@ -1793,7 +1793,43 @@ func nsC26Tag(c *nsCase, msg string) string {
 	if t := nsC26SaveArith(c); t != "" {
 		return msg + " " + t
 	}
+	if t := nsC26WorldBalance(c); t != "" {
+		return msg + " " + t
+	}
 	return msg + " " + nsC26Class(msg)
+}
+
+// balance(@world, A) in a variable: the interpreter never queries @world (batchQuery returns at once) and reads 0; the machine
+// resolves the stored balance (and fails when it is negative).  A disagreement is attributed to that only when it is fully
+// explained by it: the machine, run with every balance of @world set to 0, answers exactly as the interpreter did.
+func nsC26WorldBalance(c *nsCase) string {
+	if !strings.Contains(c.text(), "balance(") {
+		return ""
+	}
+	c2 := *c
+	c2.Bal = map[[2]string]*big.Int{}
+	touched := false
+	for k, v := range c.Bal {
+		if k[0] == "world" && v.Sign() != 0 {
+			c2.Bal[k] = big.NewInt(0)
+			touched = true
+		} else {
+			c2.Bal[k] = v
+		}
+	}
+	if !touched {
+		return ""
+	}
+	m := runAdapter(false, c2.text(), &c2)
+	i := runAdapter(true, c.text(), c)
+	if m.Class != i.Class {
+		return ""
+	}
+	if m.Class == "ok" && (strings.Join(nonZero(m.Posts), ", ") != strings.Join(nonZero(i.Posts), ", ") ||
+		mapStr(m.TxMeta) != mapStr(i.TxMeta) || mapStr(m.AccMeta) != mapStr(i.AccMeta)) {
+		return ""
+	}
+	return "[c26-world-balance-var]"
 }
 
 // `save <m1> + <m2> from acc` (monetary arithmetic in a save statement): the machine's compiler visits the expression without
